@@ -1,0 +1,180 @@
+//go:build verif
+
+package pool
+
+// Contracts for govc (see /verif/DESIGN.md). Comment-only: no declarations.
+
+// ---------------------------------------------------------------- attestation pool (C20, C17)
+
+//@ guarded AttestationPool RWMutex: datas individual aggregate aggPerValidator
+//@ sort DatasT = map[common.Root]*IndexedAttData
+//@ sort IndivT = map[Assignment]*AttRef
+//@ sort AggT = map[common.Root]*MinAggregates
+//@ sort AggPerT = map[Assignment]common.Root
+//@ sort RootK = common.Root
+//@ sort AssignK = Assignment
+//@ sort VIdx = common.ValidatorIndex
+
+// ap_wf: every map is allocated and stores no nil pointers.
+//@ define ap_wf(datas DatasT, indiv IndivT, agg AggT, per AggPerT) bool = !isnil(datas) && !isnil(indiv) && !isnil(agg) && !isnil(per) && (forall r RootK :: {datas[r]} has(datas, r) ==> datas[r] != nil) && (forall a AssignK :: {indiv[a]} has(indiv, a) ==> indiv[a] != nil) && (forall r RootK :: {agg[r]} has(agg, r) ==> agg[r] != nil)
+
+//@ func NewAttestationPool(spec) ap
+//@   property C20
+//@   ensures ap != nil && ap_wf(ap.datas, ap.individual, ap.aggregate, ap.aggPerValidator)
+//@   ensures len(ap.datas) == 0 && len(ap.individual) == 0 && len(ap.aggregate) == 0
+
+//@ func (ap *AttestationPool) AddAttestation(ctx, att, committee) err
+//@   property C20 C17
+//@   requires ap != nil && att != nil && held(ap.RWMutex) == 0
+//@   requires ap_wf(ap.datas, ap.individual, ap.aggregate, ap.aggPerValidator)
+//@   requires wellformed: bl_len(att.AggregationBits) == len(committee)
+//@   assigns ap.datas, ap.individual, ap.aggregate, ap.aggPerValidator, heap(MinAggregates.Extra), heap(MinAggregates.Aggregates)
+//@   ensures lock: held(ap.RWMutex) == 0
+//@   ensures wf: ap_wf(ap.datas, ap.individual, ap.aggregate, ap.aggPerValidator)
+//@   ensures empty: bl_count(att.AggregationBits) == 0 ==> err != nil && unchanged(ap.datas) && unchanged(ap.individual) && unchanged(ap.aggregate)
+//@   ensures data_kept: forall r RootK :: {ap.datas[r]} old(has(ap.datas, r)) ==> has(ap.datas, r) && ap.datas[r] == old(ap.datas[r])
+//@   ensures single_kept: forall a AssignK :: {ap.individual[a]} old(has(ap.individual, a)) ==> has(ap.individual, a) && ap.individual[a] == old(ap.individual[a])
+//@   ensures single_stored: bl_count(att.AggregationBits) == 1 && err == nil ==> (exists a AssignK :: has(ap.individual, a) && a.Epoch == att.Data.Target.Epoch && ap.individual[a].DataRoot == att_data_root(att.Data))
+//@   loop 1
+//@     invariant !isnil(ap.aggPerValidator)
+//@   loop 2
+//@     invariant !isnil(ap.aggPerValidator)
+
+// Search / Prune: map-range loops are verified in havoc form (the body for an
+// arbitrary present key); what is returned / removed is not described yet.
+//@ func (ap *AttestationPool) Search(opts) out
+//@   property C20 C17
+//@   opt dyncalls=args-only
+//@   requires ap != nil && held(ap.RWMutex) == 0
+//@   requires ap_wf(ap.datas, ap.individual, ap.aggregate, ap.aggPerValidator)
+//@   ensures lock: held(ap.RWMutex) == 0
+//@   ensures unchanged(ap.datas) && unchanged(ap.individual) && unchanged(ap.aggregate)
+
+//@ func (ap *AttestationPool) Prune(epoch) 
+//@   property C20 C17
+//@   requires ap != nil && held(ap.RWMutex) == 0
+//@   requires ap_wf(ap.datas, ap.individual, ap.aggregate, ap.aggPerValidator)
+//@   assigns ap.datas, ap.individual, ap.aggregate, ap.aggPerValidator
+//@   ensures lock: held(ap.RWMutex) == 0
+//@   loop 1
+//@     invariant !isnil(ap.datas) && !isnil(ap.aggregate) && (forall r RootK :: {ap.datas[r]} has(ap.datas, r) ==> ap.datas[r] != nil)
+//@   loop 2
+//@     invariant !isnil(ap.individual)
+//@   loop 3
+//@     invariant !isnil(ap.aggPerValidator)
+
+// ---------------------------------------------------------------- slashing and exit pools
+
+//@ guarded AttesterSlashingPool RWMutex: slashings
+//@ guarded ProposerSlashingPool RWMutex: slashings
+//@ guarded VoluntaryExitPool RWMutex: exits
+
+//@ func NewVoluntaryExitPool(spec) p
+//@   property C20
+//@   ensures p != nil && !isnil(p.exits) && len(p.exits) == 0
+
+//@ func (vep *VoluntaryExitPool) AddVoluntaryExit(ctx, exit) err
+//@   property C20 C17
+//@   requires vep != nil && exit != nil && held(vep.RWMutex) == 0 && !isnil(vep.exits)
+//@   assigns vep.exits
+//@   ensures lock: held(vep.RWMutex) == 0
+//@   ensures stored: err == nil ==> has(vep.exits, exit.Message.ValidatorIndex) && vep.exits[exit.Message.ValidatorIndex] == exit && !old(has(vep.exits, exit.Message.ValidatorIndex))
+//@   ensures refused: err != nil ==> unchanged(vep.exits)
+//@   ensures others: forall k VIdx :: {vep.exits[k]} old(has(vep.exits, k)) ==> has(vep.exits, k) && vep.exits[k] == old(vep.exits[k])
+
+//@ func (vep *VoluntaryExitPool) All() out
+//@   property C20 C17
+//@   requires vep != nil && held(vep.RWMutex) == 0
+//@   ensures lock: held(vep.RWMutex) == 0
+//@   ensures unchanged(vep.exits)
+
+//@ func NewProposerSlashingPool(spec) p
+//@   property C20
+//@   ensures p != nil && !isnil(p.slashings) && len(p.slashings) == 0
+
+//@ func (psp *ProposerSlashingPool) AddProposerSlashing(ctx, sl) err
+//@   property C20 C17
+//@   requires psp != nil && sl != nil && held(psp.RWMutex) == 0 && !isnil(psp.slashings)
+//@   assigns psp.slashings
+//@   ensures lock: held(psp.RWMutex) == 0
+//@   ensures stored: err == nil ==> has(psp.slashings, sl.SignedHeader1.Message.ProposerIndex) && psp.slashings[sl.SignedHeader1.Message.ProposerIndex] == sl
+//@   ensures refused: err != nil ==> unchanged(psp.slashings)
+//@   ensures others: forall k VIdx :: {psp.slashings[k]} old(has(psp.slashings, k)) ==> has(psp.slashings, k) && psp.slashings[k] == old(psp.slashings[k])
+
+//@ func (psp *ProposerSlashingPool) All() out
+//@   property C20 C17
+//@   requires psp != nil && held(psp.RWMutex) == 0
+//@   ensures lock: held(psp.RWMutex) == 0
+//@   ensures unchanged(psp.slashings)
+
+//@ func NewAttesterSlashingPool(spec) p
+//@   property C20
+//@   ensures p != nil && !isnil(p.slashings) && len(p.slashings) == 0
+
+// ---------------------------------------------------------------- sync committee pool
+
+//@ guarded SyncCommitteePool Mutex: currentSlot prevContribs currentContribs nextContribs prevMsgs currentMsgs nextMsgs
+//@ sort MsgsT = SyncCommitteeMessages
+//@ sort ContribsT = SyncCommitteeContributions
+
+//@ define sp_wf(pm MsgsT, cm MsgsT, nm MsgsT, pc ContribsT, cc ContribsT, nc ContribsT) bool = !isnil(pm) && !isnil(cm) && !isnil(nm) && !isnil(pc) && !isnil(cc) && !isnil(nc) && (forall r RootK :: {pc[r]} has(pc, r) ==> !isnil(pc[r])) && (forall r RootK :: {cc[r]} has(cc, r) ==> !isnil(cc[r])) && (forall r RootK :: {nc[r]} has(nc, r) ==> !isnil(nc[r]))
+
+//@ func NewSyncCommitteePool(spec) sp
+//@   property C20
+//@   ensures sp != nil && sp_wf(sp.prevMsgs, sp.currentMsgs, sp.nextMsgs, sp.prevContribs, sp.currentContribs, sp.nextContribs)
+
+// A message is stored in the buffer of its slot (previous / current / next), or refused with nothing changed.
+//@ func (sp *SyncCommitteePool) AddSyncCommitteeMessage(ctx, msg) err
+//@   property C20 C17
+//@   requires sp != nil && msg != nil && held(sp.Mutex) == 0
+//@   requires sp_wf(sp.prevMsgs, sp.currentMsgs, sp.nextMsgs, sp.prevContribs, sp.currentContribs, sp.nextContribs)
+//@   assigns sp.prevMsgs, sp.currentMsgs, sp.nextMsgs
+//@   ensures lock: held(sp.Mutex) == 0
+//@   ensures wf: sp_wf(sp.prevMsgs, sp.currentMsgs, sp.nextMsgs, sp.prevContribs, sp.currentContribs, sp.nextContribs)
+//@   ensures current: err == nil && sp.currentSlot == msg.Slot ==> has(sp.currentMsgs, msg.ValidatorIndex) && sp.currentMsgs[msg.ValidatorIndex] == msg
+//@   ensures refused: err != nil ==> unchanged(sp.prevMsgs) && unchanged(sp.currentMsgs) && unchanged(sp.nextMsgs)
+//@   ensures window: sp.currentSlot == msg.Slot ==> err == nil
+
+//@ func (sp *SyncCommitteePool) AddSyncCommitteeContribution(ctx, contrib) err
+//@   property C20 C17
+//@   requires sp != nil && contrib != nil && held(sp.Mutex) == 0
+//@   requires sp_wf(sp.prevMsgs, sp.currentMsgs, sp.nextMsgs, sp.prevContribs, sp.currentContribs, sp.nextContribs)
+//@   assigns sp.prevContribs, sp.currentContribs, sp.nextContribs
+//@   ensures lock: held(sp.Mutex) == 0
+//@   ensures refused: err != nil ==> unchanged(sp.prevContribs) && unchanged(sp.currentContribs) && unchanged(sp.nextContribs)
+//@   ensures window: sp.currentSlot == contrib.Slot ==> err == nil
+
+// (slot arithmetic wraps at 2^64 as in the code: a new pool sits at slot 2^64-1, whose successor is slot 0)
+// Reset(slot): rotate the three buffers by one slot in either direction, keep them for the same slot, clear them otherwise.
+//@ func (sp *SyncCommitteePool) Reset(slot)
+//@   property C20 C17
+//@   requires sp != nil && sp.spec != nil && held(sp.Mutex) == 0
+//@   assigns sp.currentSlot, sp.prevContribs, sp.currentContribs, sp.nextContribs, sp.prevMsgs, sp.currentMsgs, sp.nextMsgs
+//@   ensures lock: held(sp.Mutex) == 0
+//@   ensures slot: sp.currentSlot == slot
+//@   ensures same: old(sp.currentSlot) == slot ==> unchanged(sp.prevMsgs) && unchanged(sp.currentMsgs) && unchanged(sp.nextMsgs) && unchanged(sp.prevContribs) && unchanged(sp.currentContribs) && unchanged(sp.nextContribs)
+//@   ensures forward: (old(sp.currentSlot) + 1) % 18446744073709551616 == slot && old(sp.currentSlot) != (slot + 1) % 18446744073709551616 ==> sp.prevMsgs == old(sp.currentMsgs) && sp.currentMsgs == old(sp.nextMsgs) && len(sp.nextMsgs) == 0 && !isnil(sp.nextMsgs) && sp.prevContribs == old(sp.currentContribs) && sp.currentContribs == old(sp.nextContribs) && len(sp.nextContribs) == 0 && !isnil(sp.nextContribs)
+//@   ensures backward: old(sp.currentSlot) == (slot + 1) % 18446744073709551616 ==> sp.nextMsgs == old(sp.currentMsgs) && sp.currentMsgs == old(sp.prevMsgs) && len(sp.prevMsgs) == 0 && !isnil(sp.prevMsgs)
+//@   ensures cleared: old(sp.currentSlot) != slot && (old(sp.currentSlot) + 1) % 18446744073709551616 != slot && old(sp.currentSlot) != (slot + 1) % 18446744073709551616 ==> len(sp.prevMsgs) == 0 && len(sp.currentMsgs) == 0 && len(sp.nextMsgs) == 0 && !isnil(sp.prevMsgs) && !isnil(sp.currentMsgs) && !isnil(sp.nextMsgs) && !isnil(sp.prevContribs) && !isnil(sp.currentContribs) && !isnil(sp.nextContribs)
+
+//@ func (msgs SyncCommitteeMessages) Select(root, members) out
+//@   property C20
+//@   ensures forall k :: {out[k]} 0 <= k && k < len(out) ==> out[k] != nil
+//@   loop 1
+//@     invariant forall k :: {out[k]} 0 <= k && k < len(out) ==> out[k] != nil
+
+//@ sort ASlashT = map[common.Root]*phase0.AttesterSlashing
+//@ func (asp *AttesterSlashingPool) AddAttesterSlashing(ctx, sl) err
+//@   property C20 C17
+//@   requires asp != nil && sl != nil && held(asp.RWMutex) == 0 && !isnil(asp.slashings)
+//@   assigns asp.slashings
+//@   ensures lock: held(asp.RWMutex) == 0
+//@   ensures stored: err == nil ==> (exists r RootK :: has(asp.slashings, r) && asp.slashings[r] == sl && !old(has(asp.slashings, r)))
+//@   ensures refused: err != nil ==> unchanged(asp.slashings)
+//@   ensures others: forall k RootK :: {asp.slashings[k]} old(has(asp.slashings, k)) ==> has(asp.slashings, k) && asp.slashings[k] == old(asp.slashings[k])
+
+//@ func (asp *AttesterSlashingPool) All() out
+//@   property C20 C17
+//@   requires asp != nil && held(asp.RWMutex) == 0
+//@   ensures lock: held(asp.RWMutex) == 0
+//@   ensures unchanged(asp.slashings)
